@@ -194,12 +194,18 @@ macro_rules! numtraits {
         impl<const N: usize> Integer for $BInt<N> {
             #[inline]
             fn div_floor(&self, other: &Self) -> Self {
-                *self / *other
+                Self::div_floor(*self, *other)
             }
 
             #[inline]
             fn mod_floor(&self, other: &Self) -> Self {
-                *self % *other
+                let rem = *self % *other;
+                // the floored remainder takes the sign of the divisor
+                if !rem.is_zero() && rem.is_negative() != other.is_negative() {
+                    rem + *other
+                } else {
+                    rem
+                }
             }
 
             #[inline]
@@ -240,7 +246,7 @@ macro_rules! numtraits {
 
             #[inline]
             fn div_rem(&self, other: &Self) -> (Self, Self) {
-                (self.div_floor(other), self.mod_floor(other))
+                (*self / *other, *self % *other)
             }
         }
 
